@@ -25,6 +25,7 @@ type PermNode struct {
 	Name     string         // the name(id) of account/ak/method
 	ACL      *pb.Acl        // the ACL definition of this account/method
 	Status   ValidateStatus // the ACL validation status of this node
+	Signed   bool           // the node ends a signer URI, i.e. it is the name whose signature was verified
 	Children []*PermNode    // the children of this node, usually are ACL members of account/method
 }
 
@@ -122,6 +123,8 @@ func buildPermTree(root *PermNode, aclMgr base.AclManager,
 			pnode.Children = append(pnode.Children, newNode)
 			pnode = newNode
 		}
+		// only the last name of a signer URI is backed by a verified signature
+		pnode.Signed = true
 	}
 	return root, nil
 }
